@@ -129,3 +129,69 @@ Proof.
   induction acts as [|a acts IH]; intros s k o Hids Hw Hat; cbn [fold_left]; [exact Hat|]. inversion Hw; subst.
   apply IH; [rewrite ids_request; exact Hids|assumption|apply request_frame; assumption].
 Qed.
+
+(* ---------- a whole update of one market: the orders of every OTHER market are untouched unless a request of this update names them ---------- *)
+Lemma ids_exec_pkg tb cf now s p : map mk_id (s_markets (exec_pkg tb cf now s p)) = map mk_id (s_markets s).
+Proof.
+  unfold exec_pkg. destruct (get_market (pk_market p) (s_markets s)) as [m|] eqn:Em; [|reflexivity].
+  destruct (mk_book m) as [b|]; [|reflexivity]. destruct (get_order (pk_order p) (mk_orders m)) as [o0|]; [|reflexivity].
+  destruct (status_eqb (so_status o0) SViolation); [destruct (pk_kind p); reflexivity|]. cbv zeta.
+  destruct (pk_kind p).
+  - destruct (sim_place tb (client_of cf (so_strat o0)) (mk_static m) b (pk_mv p) o0) as [o1 ok]. rewrite mk_sim_markets. apply ids_upd_market. reflexivity.
+  - destruct (sim_cancel b o0) as [[o1 ok] c]. rewrite mk_sim_markets. apply ids_upd_market. reflexivity.
+  - rewrite mk_sim_markets. apply ids_upd_market. reflexivity.
+  - destruct (status_eqb (so_status o0) SExecComplete); [reflexivity|]. destruct (sim_cancel b o0) as [[o1 ok] sc].
+    destruct (negb ok); [rewrite mk_sim_markets; apply ids_upd_market; reflexivity|].
+    destruct (sc =? 0); [rewrite mk_sim_markets; apply ids_upd_market; reflexivity|].
+    match goal with |- context [sim_place tb ?c ?ms0 b ?mv ?r0] => destruct (sim_place tb c ms0 b mv r0) as [r1 okp] end.
+    destruct okp; rewrite mk_sim_markets; [rewrite !ids_upd_market by reflexivity; reflexivity|apply ids_upd_market; reflexivity].
+Qed.
+
+Lemma fold_exec_frame tb cf now k o : forall ps s, NoDup (map mk_id (s_markets s)) -> Forall (fun p => pkey p <> k) ps -> at_key (s_markets s) k o ->
+  at_key (s_markets (fold_left (fun s1 p => if s_aborted s1 then s1 else exec_pkg tb cf now s1 p) ps s)) k o /\
+  map mk_id (s_markets (fold_left (fun s1 p => if s_aborted s1 then s1 else exec_pkg tb cf now s1 p) ps s)) = map mk_id (s_markets s).
+Proof.
+  induction ps as [|p ps IH]; intros s Hids Hne Hat; cbn [fold_left]; [split; [exact Hat|reflexivity]|]. inversion Hne; subst.
+  destruct (s_aborted s); [apply IH; assumption|].
+  destruct (IH (exec_pkg tb cf now s p)) as [A B]; [rewrite ids_exec_pkg; exact Hids|assumption|apply exec_pkg_frame; assumption|].
+  split; [exact A|rewrite B; apply ids_exec_pkg].
+Qed.
+
+Lemma strategies_frame cf now mid (f : Z -> list action) k o : forall sts s, NoDup (map mk_id (s_markets s)) ->
+  (forall st, In st sts -> Forall (fun a => writes mid a <> Some k) (f st)) -> at_key (s_markets s) k o ->
+  at_key (s_markets (fold_left (fun s st => fold_left (request cf now st mid) (f st) s) sts s)) k o.
+Proof.
+  induction sts as [|st sts IH]; intros s Hids Hw Hat; cbn [fold_left]; [exact Hat|].
+  apply IH; [|intros st' H'; apply Hw; right; exact H'|apply requests_frame; [exact Hids|apply Hw; left; reflexivity|exact Hat]].
+  assert (G0 : forall acts s0, map mk_id (s_markets (fold_left (request cf now st mid) acts s0)) = map mk_id (s_markets s0)).
+  { induction acts as [|a acts IHa]; intros s0; cbn [fold_left]; [reflexivity|]. rewrite IHa. apply ids_request. }
+  rewrite G0. exact Hids.
+Qed.
+
+Theorem step_frame_other_market tb cf n sc s e k o : NoDup (map mk_id (s_markets s)) -> fst k <> ev_market e ->
+  (forall st, In st (map Z.of_nat (seq 0 (Z.to_nat n))) -> Forall (fun a => writes (ev_market e) a <> Some k) (sc st (ev_market e) (ev_idx e))) ->
+  at_key (s_markets s) k o -> at_key (s_markets (step tb cf n sc s e)) k o.
+Proof.
+  intros Hids Hne Hw Hat. unfold step. destruct (s_aborted s); [exact Hat|].
+  set (s1 := match s_queue s with [] => s | _ => check_pending tb cf (b_pt (ev_book e)) (ev_market e) s end).
+  assert (H1 : at_key (s_markets s1) k o /\ map mk_id (s_markets s1) = map mk_id (s_markets s)).
+  { subst s1. destruct (s_queue s) eqn:Eq; [split; [exact Hat|reflexivity]|]. unfold check_pending. cbn [s_markets].
+    apply fold_exec_frame; [exact Hids| |exact Hat]. rewrite Forall_forall. intros p0 Hp. apply filter_In in Hp as [_ Hp]. apply andb_true_iff in Hp as [Hp _].
+    intro Hc. apply Hne. rewrite <- Hc. unfold pkey. cbn. lia. }
+  destruct H1 as [Hat1 Hids1]. assert (Hid1 : NoDup (map mk_id (s_markets s1))) by (rewrite Hids1; exact Hids).
+  destruct (s_aborted s1); [exact Hat1|].
+  destruct (get_market (ev_market e) (s_markets s1)) as [m|] eqn:Em; [|exact Hat1].
+  destruct (get_market_id _ _ _ Em) as [Hin Hmid].
+  destruct (mstatus_eqb (b_status (ev_book e)) MClosed).
+  - destruct (mk_seen m); [|exact Hat1]. cbn [s_markets]. rewrite (upd_market_const _ _ m _ Em).
+    apply (at_key_market_replaced _ (ev_market e) m _ k o Hid1 Em); [exact Hmid| |exact Hat1]. intros _ _ Hc. contradiction.
+  - match goal with |- context [middleware tb cf s1 ?mm ?b] => set (m0 := mm) end.
+    pose proof (middleware_N tb cf s1 m0 (ev_book e)) as (E1 & E2 & E3 & E4).
+    destruct (middleware tb cf s1 m0 (ev_book e)) as [s2 m1]. cbn [fst snd] in *. unfold m0 in E3. cbn [mk_id] in E3.
+    set (m2 := if mk_active m1 then set_orders m1 (completion_sweep cf (b_pt (ev_book e)) (mk_orders m1)) else m1).
+    assert (Hid2 : mk_id m2 = ev_market e) by (subst m2; destruct (mk_active m1); cbn; lia).
+    apply strategies_frame.
+    + cbn [s_markets]. rewrite E1. rewrite ids_upd_market_c by (intros x _; exact Hid2). exact Hid1.
+    + exact Hw.
+    + cbn [s_markets]. rewrite E1. apply (at_key_market_replaced _ (ev_market e) m m2 k o Hid1 Em Hid2); [|exact Hat1]. intros _ _ Hc. contradiction.
+Qed.
